@@ -252,7 +252,7 @@ pub fn check(tier: Tier) -> Outcome {
         }
         // segment family: <= 3 (thorough 5) separator-carrying segments + a leaf
         for first_seg in 0..7 {
-            cells.push(json!({"srv": s.to_json(), "prefix": [], "more": 0, "family": "segments", "first_seg": first_seg, "segs": if tier == Tier::Quick { 3 } else { 5 }}));
+            cells.push(json!({"srv": s.to_json(), "prefix": [], "more": 0, "family": "segments", "first_seg": first_seg, "segs": if tier == Tier::Quick { 3 } else { 4 }}));
         }
         if tier == Tier::Thorough {
             // depth 5/6 on the separator/dot sub-alphabet
@@ -268,7 +268,7 @@ pub fn check(tier: Tier) -> Outcome {
     let res = run_cells("c03", cells, &crate::pool_opts(tier));
     let mut out = Outcome::new("C03", "model_checking");
     out.absorb(res, n);
-    out.rule = format!("every filename that is a concatenation of <= {depth} tokens over an {NTOK}-token path alphabet ('/', '\\', '..', '.', existing file, subdirectory, file in it, new name, a file one level up, a sibling directory sharing the served directory's name as prefix, absolute sandbox and served paths, empty, '...', '..\\', '%2e%2e', 'up', 'secret.txt'){}, plus every name made of <= 3 (thorough 5) separator-carrying segments ('/', '\\', '../', '..\\', './', 'sub/', 'sub\\') followed by one of 8 leaves; each as RRQ and as WRQ, against the real Server on loopback in {} configurations (shared/distinct dirs x overwrite{}); each accepted request is carried to its end. Oracle: served bytes identify a file inside the send directory (every file's content is its own path); tree snapshot before/after shows at most one create/modify inside the receive directory; names a lexical reference resolver puts outside are answered with ERROR and have no effect. non-trivial = requests that transferred data. states = requests, transitions = datagram exchanges.", if tier == Tier::Thorough { ", plus <= 6 tokens over the separator/dot sub-alphabet" } else { "" }, cfgs.len(), if tier == Tier::Thorough { ", plus single-port" } else { "" });
+    out.rule = format!("every filename that is a concatenation of <= {depth} tokens over an {NTOK}-token path alphabet ('/', '\\', '..', '.', existing file, subdirectory, file in it, new name, a file one level up, a sibling directory sharing the served directory's name as prefix, absolute sandbox and served paths, empty, '...', '..\\', '%2e%2e', 'up', 'secret.txt'){}, plus every name made of <= 3 (thorough 4) separator-carrying segments ('/', '\\', '../', '..\\', './', 'sub/', 'sub\\') followed by one of 8 leaves; each as RRQ and as WRQ, against the real Server on loopback in {} configurations (shared/distinct dirs x overwrite{}); each accepted request is carried to its end. Oracle: served bytes identify a file inside the send directory (every file's content is its own path); tree snapshot before/after shows at most one create/modify inside the receive directory; names a lexical reference resolver puts outside are answered with ERROR and have no effect. non-trivial = requests that transferred data. states = requests, transitions = datagram exchanges.", if tier == Tier::Thorough { ", plus <= 6 tokens over the separator/dot sub-alphabet" } else { "" }, cfgs.len(), if tier == Tier::Thorough { ", plus single-port" } else { "" });
     out.assumptions = vec!["Linux path semantics; no symlinks planted inside the served directories".into(), "one server per configuration per shard process is reused across requests (the tree is restored after every request)".into()];
     out
 }
